@@ -7,6 +7,7 @@ import (
 	"testing"
 
 	"github.com/fiorix/go-diameter/v4/diam"
+	"github.com/fiorix/go-diameter/v4/diam/datatype"
 
 	"verifharness/ev"
 	"verifharness/gen"
@@ -109,6 +110,7 @@ func TestC20(t *testing.T) {
 		c.Class("deep-chain/depth=%d/decoded=%v", d, decoded)
 		c20Deep(c, g, d, decoded)
 	})
+	rec.Suite("search-after-change", rec.N(2000, 400000), func(c *ev.Case) { c20AfterChange(c, g) })
 	rec.Suite("concurrent-searches", rec.N(300, 60000), func(c *ev.Case) { c20Concurrent(c, g) })
 	nSearch := rec.N(40000, 20000000)
 	if rec.Race() {
@@ -430,6 +432,94 @@ func c20Deep(c *ev.Case, g *lib.Ctx, depth int, decoded bool) {
 		}
 		c.Event("path_queries", 1)
 	}
+}
+
+// c20AfterChange: search, change the tree (through the message's methods, through
+// a group's AddAVP, by editing the exported slices directly), search again: every
+// answer is that of a walk of the tree as it is at that moment.
+func c20AfterChange(c *ev.Case, g *lib.Ctx) {
+	r := c.R
+	m := &gen.Msg{H: refcodec.Header{Version: 1, Flags: 0x80, Code: 8388000, HopByHop: 1, EndToEnd: 1}, Nodes: denseTree(c, 0)}
+	dm := lib.Build(g.Parser, m, c.I)
+	if r.IntN(2) == 0 {
+		wire, err := dm.Serialize()
+		if err == nil {
+			dm, err = diam.ReadMessage(bytes.NewReader(wire), g.Parser)
+		}
+		if err != nil {
+			c.Fail(ev.Sig{"op": "setup"}, nil, nil, "%v", err)
+			return
+		}
+	}
+	codes := []uint32{9001, 9009, 9018, 9019, 9002}
+	var trace []string
+	check := func() bool {
+		for _, code := range codes {
+			var want, got []*diam.AVP
+			var one *diam.AVP
+			var err, err1 error
+			refWalk(dm.AVP, code, &want)
+			if p, bad := guard(func() { got, err = dm.FindAVPs(code, refdict.AnyVendor); one, err1 = dm.FindAVP(code, refdict.AnyVendor) }); bad {
+				c.Fail(ev.Sig{"op": "panic", "kind": "after-change"}, nil, trace, "search panicked after %v: %s", trace, p)
+				return false
+			}
+			if !samePtrs(got, want) || (len(want) > 0 && (err != nil || one != want[0] || err1 != nil)) || (len(want) == 0 && one != nil) {
+				c.Fail(ev.Sig{"op": "search-after-change", "kind": "present"}, nil, trace, "after %v: FindAVPs(%d) returned %d AVPs (err=%v), FindAVP %v (err=%v); a walk of the tree as it is now finds %d", trace, code, len(got), err, one != nil, err1, len(want))
+				return false
+			}
+			c.Event("queries", 2)
+		}
+		return true
+	}
+	if !check() {
+		return
+	}
+	var groups []*diam.GroupedAVP
+	var collect func(avps []*diam.AVP)
+	collect = func(avps []*diam.AVP) {
+		for _, a := range avps {
+			if ga, ok := a.Data.(*diam.GroupedAVP); ok {
+				groups = append(groups, ga)
+				collect(ga.AVP)
+			}
+		}
+	}
+	for step := 0; step < 1+r.IntN(5); step++ {
+		groups = groups[:0]
+		collect(dm.AVP)
+		op := r.IntN(6)
+		switch {
+		case op == 0:
+			trace = append(trace, "Message.AddAVP")
+			dm.AddAVP(diam.NewAVP(9009, 0x40, 0, datatype.Unsigned32(uint32(step))))
+		case op == 1 && len(groups) > 0:
+			trace = append(trace, "GroupedAVP.AddAVP")
+			groups[r.IntN(len(groups))].AddAVP(diam.NewAVP(9001, 0x40, 0, datatype.OctetString("added")))
+		case op == 2 && len(dm.AVP) > 0:
+			trace = append(trace, "m.AVP[i] = x")
+			dm.AVP[r.IntN(len(dm.AVP))] = diam.NewAVP(9002, 0x40, 0, datatype.UTF8String("replaced"))
+		case op == 3 && len(groups) > 0:
+			ga := groups[r.IntN(len(groups))]
+			if len(ga.AVP) > 0 {
+				trace = append(trace, "group.AVP = group.AVP[1:]")
+				ga.AVP = ga.AVP[1:]
+			}
+		case op == 4 && len(groups) > 0:
+			ga := groups[r.IntN(len(groups))]
+			if len(ga.AVP) > 0 {
+				trace = append(trace, "group.AVP[i] = x")
+				ga.AVP[r.IntN(len(ga.AVP))] = diam.NewAVP(9009, 0x40, 0, datatype.Unsigned32(99))
+			}
+		default:
+			trace = append(trace, "Message.InsertAVP")
+			dm.InsertAVP(diam.NewAVP(9001, 0x40, 0, datatype.OctetString("first")))
+		}
+		if !check() {
+			return
+		}
+	}
+	c.Class("after-change/steps=%d", len(trace))
+	c.Event("search_after_change_histories", 1)
 }
 
 // c20Concurrent: G goroutines search one message at the same time (searching is
